@@ -576,3 +576,34 @@ func (c *Chain) ClientLatestAt(clientID string, t time.Time) (clienttypes.Height
 	ts, err := c.App.IBCKeeper.ClientKeeper.GetClientTimestampAtHeight(ctx, clientID, lh)
 	return lh, ts, err
 }
+
+// ForgeTMHeader builds an 07-tendermint header from an arbitrary CometBFT header value of
+// chain `of` (it need not be a block the chain produced: forks, future heights, altered times),
+// signed by the validators whose indexes are in signerIdx (nil = all) of the validator set
+// `vals`, trusting height `trusted` of the real chain.
+func ForgeTMHeader(of *Chain, hdr cmttypes.Header, vals *cmttypes.ValidatorSet, trusted int64, signerIdx []int) (*ibctm.Header, error) {
+	sh, err := SignHeader(hdr, vals, of.Signers, signerIdx)
+	if err != nil {
+		return nil, err
+	}
+	trec, ok := of.Headers[trusted]
+	if !ok {
+		return nil, fmt.Errorf("%s has no block %d to trust", of.ID, trusted)
+	}
+	return AssembleTMHeader(sh, vals, of.IBCHeight(trusted), trec.NextVals)
+}
+
+// BaseHeader returns a copy of the CometBFT header of block h, or — for a height the chain has
+// not produced — a header derived from the latest block with Height = h and a later time.
+func (c *Chain) BaseHeader(h int64) cmttypes.Header {
+	if rec, ok := c.Headers[h]; ok {
+		return rec.Header
+	}
+	rec := c.Headers[c.Height]
+	hdr := rec.Header
+	hdr.Height = h
+	hdr.Time = rec.Header.Time.Add(time.Duration(h-c.Height) * DefaultBlockInterval)
+	hdr.ValidatorsHash = c.Vals.Hash()
+	hdr.NextValidatorsHash = c.NextVals.Hash()
+	return hdr
+}
